@@ -61,14 +61,21 @@ Definition C08_statement : Prop :=
     n_pterm n <= n_pterm n' /\
     (n_pterm n' = n_pterm n -> forall c, n_pvote n = Some c -> n_pvote n' = Some c).
 
-(* C07: an entry known committed is in the log of every later leader. *)
-Definition committed_in (w : world) (e : entry) : Prop :=
-  exists n, In n (w_nodes w) /\ In e (n_log n) /\ e_index e <= n_commit n.
+(* C07: an entry known committed is in the log of every later leader.  "Later" is Raft's: a leader of a term
+   higher than the term in which the entry was known committed.  A node knows a commit index only by having
+   advanced it itself (as leader of its term) or by an AppendEntries request of a term not above its own, so
+   the current term T of ANY node that knows e committed bounds the term in which e was committed.
+   (An earlier formalization here compared the leader's term with the ENTRY's term; that is false of the model
+   and of every Raft implementation: a stale leader of term 2, partitioned away, keeps its role while an entry
+   of term 1 it never received is committed by the leader of term 3.  That formalization was ours, not the
+   property's, and has been corrected.) *)
+Definition committed_in (w : world) (e : entry) (T : N) : Prop :=
+  exists n, In n (w_nodes w) /\ In e (n_log n) /\ e_index e <= n_commit n /\ n_term n <= T.
 Definition C07_statement : Prop :=
   forall ids boot et ld ls1 ls2, static (ls1 ++ ls2) = true -> nosnap (ls1 ++ ls2) = true ->
     let w1 := run (init_world ids boot et ld) ls1 in
     let w2 := run w1 ls2 in
-    forall e n, committed_in w1 e -> In n (w_nodes w2) -> n_role n = Leader -> e_term e < n_term n ->
+    forall e T n, committed_in w1 e T -> In n (w_nodes w2) -> n_role n = Leader -> T < n_term n ->
       In e (n_log n).
 
 (* C06 (cluster form): log matching between any two persistent logs. *)
